@@ -1270,6 +1270,11 @@ func (c *StructConverter) To(obj Object) (interface{}, error) {
 			if f := structValue.FieldByName(k); f.CanSet() {
 				if attr, ok := c.goType.GetAttribute(k); ok {
 					if attrField, ok := attr.(*GoField); ok {
+						// nil is not a value of a struct held by value: it
+						// must not arrive as the zero struct
+						if value == Nil && f.Kind() == reflect.Struct && f.Type() != timeType {
+							return nil, errz.TypeErrorf("type error: nil is not a %s (field %s)", f.Type(), k)
+						}
 						attrValue, err := attrField.converter.To(value)
 						if err != nil {
 							return nil, err
